@@ -1,2 +1,573 @@
-//! C09 workload (under construction).
-fn main() {}
+//! C09 — radix digit iterators and their inverses, string parsing, and the six
+//! formatting traits vs positional notation.
+
+use num_bigint::BigUint;
+use num_traits::{ToPrimitive, Zero};
+use ruint::{BaseConvertError, ParseError, Uint};
+use std::{fmt, str::FromStr};
+use vmon::{au, big, gen, rng::Rng, uint, Arg, Mon};
+
+vmon::widths!(exec; 0, 1, 2, 3, 7, 8, 16, 31, 32, 60, 63, 64, 65, 100, 127, 128, 129, 189, 192,
+    250, 255, 256, 257, 384, 512, 521, 1024, 2048);
+
+// ---------------------------------------------------------------- reference formatting
+struct Ref<'a>(&'a BigUint);
+impl fmt::Display for Ref<'_> {
+    fn fmt(&self, f: &mut fmt::Formatter<'_>) -> fmt::Result {
+        f.pad_integral(true, "", &self.0.to_str_radix(10))
+    }
+}
+impl fmt::Debug for Ref<'_> {
+    fn fmt(&self, f: &mut fmt::Formatter<'_>) -> fmt::Result {
+        f.pad_integral(true, "", &self.0.to_str_radix(10))
+    }
+}
+impl fmt::Binary for Ref<'_> {
+    fn fmt(&self, f: &mut fmt::Formatter<'_>) -> fmt::Result {
+        f.pad_integral(true, "0b", &self.0.to_str_radix(2))
+    }
+}
+impl fmt::Octal for Ref<'_> {
+    fn fmt(&self, f: &mut fmt::Formatter<'_>) -> fmt::Result {
+        f.pad_integral(true, "0o", &self.0.to_str_radix(8))
+    }
+}
+impl fmt::LowerHex for Ref<'_> {
+    fn fmt(&self, f: &mut fmt::Formatter<'_>) -> fmt::Result {
+        f.pad_integral(true, "0x", &self.0.to_str_radix(16))
+    }
+}
+impl fmt::UpperHex for Ref<'_> {
+    fn fmt(&self, f: &mut fmt::Formatter<'_>) -> fmt::Result {
+        f.pad_integral(true, "0x", &self.0.to_str_radix(16).to_uppercase())
+    }
+}
+
+/// All flag combinations of the grid for one trait letter; `$w` is the runtime width.
+macro_rules! fmt_grid {
+    ($m:ident, $x:ident, $r:ident, $small:ident, $w:ident; $($t:literal),*) => {$(
+        fmt_grid!(@one $m, $x, $r, $small, $w, concat!("{:", $t, "}"), concat!("{:", $t, "}"));
+        fmt_grid!(@one $m, $x, $r, $small, $w, concat!("{:#", $t, "}"), concat!("{:#", $t, "}"));
+        fmt_grid!(@one $m, $x, $r, $small, $w, concat!("{:+", $t, "}"), concat!("{:+", $t, "}"));
+        fmt_grid!(@w $m, $x, $r, $small, $w, concat!("{:w$", $t, "}"));
+        fmt_grid!(@w $m, $x, $r, $small, $w, concat!("{:0w$", $t, "}"));
+        fmt_grid!(@w $m, $x, $r, $small, $w, concat!("{:#0w$", $t, "}"));
+        fmt_grid!(@w $m, $x, $r, $small, $w, concat!("{:+0w$", $t, "}"));
+        fmt_grid!(@w $m, $x, $r, $small, $w, concat!("{:#w$", $t, "}"));
+        fmt_grid!(@w $m, $x, $r, $small, $w, concat!("{:<w$", $t, "}"));
+        fmt_grid!(@w $m, $x, $r, $small, $w, concat!("{:>w$", $t, "}"));
+        fmt_grid!(@w $m, $x, $r, $small, $w, concat!("{:^w$", $t, "}"));
+        fmt_grid!(@w $m, $x, $r, $small, $w, concat!("{:*^w$", $t, "}"));
+        fmt_grid!(@w $m, $x, $r, $small, $w, concat!("{:#>w$", $t, "}"));
+        fmt_grid!(@w $m, $x, $r, $small, $w, concat!("{:_<#w$", $t, "}"));
+        fmt_grid!(@w $m, $x, $r, $small, $w, concat!("{:0<+#w$", $t, "}"));
+    )*};
+    (@one $m:ident, $x:ident, $r:ident, $small:ident, $w:ident, $spec:expr, $spec2:expr) => {{
+        if let Some(got) = $m.must_in("format", || format!($spec, $x)) {
+            let want = format!($spec, $r);
+            if got != want {
+                $m.fail(concat!("fmt ", $spec), &want, &got);
+            }
+            if let Some(s) = $small {
+                let prim = format!($spec, s);
+                if got != prim {
+                    $m.fail(concat!("fmt-vs-u128 ", $spec), &prim, &got);
+                }
+            }
+        }
+    }};
+    (@w $m:ident, $x:ident, $r:ident, $small:ident, $w:ident, $spec:expr) => {{
+        if let Some(got) = $m.must_in("format", || format!($spec, $x, w = $w)) {
+            let want = format!($spec, $r, w = $w);
+            if got != want {
+                $m.fail(concat!("fmt ", $spec), &format!("w={} {}", $w, want), &got);
+            }
+            if let Some(s) = $small {
+                let prim = format!($spec, s, w = $w);
+                if got != prim {
+                    $m.fail(concat!("fmt-vs-u128 ", $spec), &format!("w={} {}", $w, prim), &got);
+                }
+            }
+        }
+    }};
+}
+
+// ---------------------------------------------------------------- reference parsing
+#[derive(Debug, PartialEq, Eq, Clone)]
+enum Fault {
+    Radix,         // radix > 64
+    Base,          // radix < 2
+    Char(char),    // first character outside the alphabet
+    Digit(u64),    // first digit >= radix
+    Overflow,
+}
+
+/// Digit value of `c` under the documented alphabets; None = ignored; Err = not in alphabet.
+fn digit_of(c: char, radix: u64) -> Result<Option<u64>, ()> {
+    if radix <= 36 {
+        match c {
+            '0'..='9' => Ok(Some(c as u64 - '0' as u64)),
+            'a'..='z' => Ok(Some(c as u64 - 'a' as u64 + 10)),
+            'A'..='Z' => Ok(Some(c as u64 - 'A' as u64 + 10)),
+            '_' => Ok(None),
+            _ => Err(()),
+        }
+    } else {
+        match c {
+            'A'..='Z' => Ok(Some(c as u64 - 'A' as u64)),
+            'a'..='z' => Ok(Some(c as u64 - 'a' as u64 + 26)),
+            '0'..='9' => Ok(Some(c as u64 - '0' as u64 + 52)),
+            '+' | '-' => Ok(Some(62)),
+            '/' | ',' | '_' => Ok(Some(63)),
+            '=' | '\r' | '\n' => Ok(None),
+            _ => Err(()),
+        }
+    }
+}
+
+/// All faults present in the input (each kind at most once) and the value if there is none.
+fn ref_parse(src: &str, radix: u64, bits: usize) -> (Vec<Fault>, BigUint) {
+    let mut faults = vec![];
+    if radix > 64 {
+        return (vec![Fault::Radix], BigUint::zero());
+    }
+    if radix < 2 {
+        faults.push(Fault::Base);
+    }
+    let mut v = BigUint::zero();
+    let mut overflow = false;
+    for c in src.chars() {
+        match digit_of(c, radix) {
+            Err(()) => {
+                if !faults.iter().any(|f| matches!(f, Fault::Char(_))) {
+                    faults.push(Fault::Char(c));
+                }
+            }
+            Ok(None) => {}
+            Ok(Some(d)) => {
+                if d >= radix {
+                    if !faults.iter().any(|f| matches!(f, Fault::Digit(_))) {
+                        faults.push(Fault::Digit(d));
+                    }
+                } else if radix >= 2 {
+                    v = v * radix + d;
+                    if !big::fits(&v, bits) {
+                        overflow = true;
+                        v = BigUint::zero(); // keep the accumulator small
+                    }
+                }
+            }
+        }
+    }
+    if overflow {
+        faults.push(Fault::Overflow);
+    }
+    (faults, v)
+}
+
+fn check_parse<const B: usize, const L: usize>(m: &mut Mon, got: Result<Uint<B, L>, ParseError>, faults: &[Fault], v: &BigUint, radix: u64) {
+    match (&got, faults) {
+        (Ok(x), []) => {
+            m.eq_uint("parse.value", x, &big::limbs(v, L));
+        }
+        (Ok(x), _) => {
+            m.canonical(x);
+            m.fail("parse.accepts-invalid", &format!("Err for faults {faults:?}"), &format!("Ok({})", big::hex(x.as_limbs())));
+        }
+        (Err(e), []) => m.fail("parse.rejects-valid", &format!("Ok({})", big::bhex(v)), &format!("{e:?}")),
+        (Err(e), [single]) => {
+            let want = match single {
+                Fault::Radix => ParseError::InvalidRadix(radix),
+                Fault::Base => ParseError::BaseConvertError(BaseConvertError::InvalidBase(radix)),
+                Fault::Char(c) => ParseError::InvalidDigit(*c),
+                Fault::Digit(d) => ParseError::BaseConvertError(BaseConvertError::InvalidDigit(*d, radix)),
+                Fault::Overflow => ParseError::BaseConvertError(BaseConvertError::Overflow),
+            };
+            m.eq("parse.error-kind", e, &want);
+        }
+        (Err(_), _) => {} // several faults: any error is acceptable
+    }
+}
+
+fn exec<const B: usize, const L: usize>(m: &mut Mon, op: &str, a: &[Arg]) {
+    match op {
+        "to_base" => {
+            let limbs = a[0].u();
+            let base = a[1].n() as u64;
+            let x: Uint<B, L> = uint(limbs);
+            let bv = big::big(limbs);
+            if base < 2 {
+                m.nontrivial(false);
+                m.must_panic(|| x.to_base_le(base).count(), "base < 2");
+                m.must_panic(|| x.to_base_be(base).count(), "base < 2");
+                return;
+            }
+            // digits by repeated division
+            let mut le: Vec<u64> = vec![];
+            let mut t = bv.clone();
+            let bb = BigUint::from(base);
+            while !t.is_zero() {
+                le.push((&t % &bb).to_u64().unwrap());
+                t /= &bb;
+            }
+            let be: Vec<u64> = le.iter().rev().copied().collect();
+            m.nontrivial(bv >= bb);
+            m.obs(|| format!("{} digits in base {base}", le.len()));
+            if let Some(v) = m.must_in("to_base_le", || x.to_base_le(base).collect::<Vec<u64>>()) {
+                m.eq("to_base_le", &v, &le);
+            }
+            if let Some(v) = m.must_in("to_base_be", || x.to_base_be(base).collect::<Vec<u64>>()) {
+                m.eq("to_base_be", &v, &be);
+            }
+            if let Some(r) = m.must_in("from_base_le", || Uint::<B, L>::from_base_le(base, le.iter().copied())) {
+                match r {
+                    Ok(v) => {
+                        m.eq_uint("from_base_le.roundtrip", &v, limbs);
+                    }
+                    Err(e) => m.fail("from_base_le.roundtrip", "Ok(value)", &format!("{e:?}")),
+                }
+            }
+            if let Some(r) = m.must_in("from_base_be", || Uint::<B, L>::from_base_be(base, be.iter().copied())) {
+                match r {
+                    Ok(v) => {
+                        m.eq_uint("from_base_be.roundtrip", &v, limbs);
+                    }
+                    Err(e) => m.fail("from_base_be.roundtrip", "Ok(value)", &format!("{e:?}")),
+                }
+            }
+        }
+        "from_base" => {
+            // digits given most significant first
+            let digits = a[0].u();
+            let base = a[1].n() as u64;
+            let le: Vec<u64> = digits.iter().rev().copied().collect();
+            m.nontrivial(digits.len() >= 2);
+            let mut faults: Vec<&str> = vec![];
+            let mut v = BigUint::zero();
+            if base < 2 {
+                faults.push("base");
+            } else {
+                let mut ovf = false;
+                let mut bad = None;
+                for &d in digits {
+                    if d >= base {
+                        bad.get_or_insert(d);
+                    } else {
+                        v = v * base + d;
+                        if !big::fits(&v, B) {
+                            ovf = true;
+                            v = BigUint::zero();
+                        }
+                    }
+                }
+                if bad.is_some() {
+                    faults.push("digit");
+                }
+                if ovf {
+                    faults.push("overflow");
+                }
+            }
+            m.obs(|| format!("base={base} digits={} faults={faults:?}", digits.len()));
+            for (name, r) in [
+                ("from_base_be", m.must_in("from_base_be", || Uint::<B, L>::from_base_be(base, digits.iter().copied()))),
+                ("from_base_le", m.must_in("from_base_le", || Uint::<B, L>::from_base_le(base, le.iter().copied()))),
+            ] {
+                let Some(r) = r else { continue };
+                match (&r, faults.as_slice()) {
+                    (Ok(x), []) => {
+                        m.eq_uint(&format!("{name}.value"), x, &big::limbs(&v, L));
+                    }
+                    (Ok(x), _) => {
+                        m.canonical(x);
+                        m.fail(&format!("{name}.accepts-invalid"), &format!("Err for {faults:?}"), &format!("Ok({})", big::hex(x.as_limbs())));
+                    }
+                    (Err(e), []) => m.fail(&format!("{name}.rejects-valid"), &format!("Ok({})", big::bhex(&v)), &format!("{e:?}")),
+                    (Err(e), [one]) => {
+                        let ok = match (*one, e) {
+                            ("base", BaseConvertError::InvalidBase(b)) => *b == base,
+                            ("digit", BaseConvertError::InvalidDigit(d, b)) => *b == base && *d >= base && digits.contains(d),
+                            ("overflow", BaseConvertError::Overflow) => true,
+                            _ => false,
+                        };
+                        m.check(ok, &format!("{name}.error-kind"), || format!("error for single fault {one}"), || format!("{e:?}"));
+                    }
+                    (Err(_), _) => {}
+                }
+            }
+        }
+        "fmt" => {
+            let limbs = a[0].u();
+            let x: Uint<B, L> = uint(limbs);
+            let bv = big::big(limbs);
+            let w = a[1].us();
+            let r = Ref(&bv);
+            let small: Option<u128> = bv.to_u128();
+            m.nontrivial(bv >= BigUint::from(10u8));
+            m.obs(|| format!("display={} width={w}", bv.to_str_radix(10)));
+            fmt_grid!(m, x, r, small, w; "", "?", "b", "o", "x", "X");
+            if let Some(s) = m.must_in("to_string", || x.to_string()) {
+                m.eq("to_string", &s, &bv.to_str_radix(10));
+            }
+        }
+        "parse" => {
+            let src = a[0].s();
+            let radix = a[1].n() as u64;
+            let (faults, v) = ref_parse(src, radix, B);
+            m.nontrivial(src.chars().count() >= 2);
+            m.obs(|| format!("radix={radix} faults={faults:?} value={}", big::bhex(&v)));
+            if let Some(got) = m.must_in("from_str_radix", || Uint::<B, L>::from_str_radix(src, radix)) {
+                check_parse(m, got, &faults, &v, radix);
+            }
+        }
+        "from_str" => {
+            let src = a[0].s();
+            let (rest, radix) = if src.is_char_boundary(2) && src.len() >= 2 {
+                match &src[..2] {
+                    "0x" | "0X" => (&src[2..], 16u64),
+                    "0o" | "0O" => (&src[2..], 8),
+                    "0b" | "0B" => (&src[2..], 2),
+                    _ => (src, 10),
+                }
+            } else {
+                (src, 10)
+            };
+            let (faults, v) = ref_parse(rest, radix, B);
+            m.nontrivial(src.chars().count() >= 2);
+            m.obs(|| format!("radix={radix} faults={faults:?} value={}", big::bhex(&v)));
+            if let Some(got) = m.must_in("from_str", || Uint::<B, L>::from_str(src)) {
+                check_parse(m, got, &faults, &v, radix);
+            }
+            if let Some(got) = m.must_in("str::parse", || src.parse::<Uint<B, L>>()) {
+                check_parse(m, got, &faults, &v, radix);
+            }
+        }
+        _ => panic!("harness: unknown op {op}"),
+    }
+}
+
+// ---------------------------------------------------------------- generators
+const B64: &[u8] = b"ABCDEFGHIJKLMNOPQRSTUVWXYZabcdefghijklmnopqrstuvwxyz0123456789+/";
+
+fn digit_char(r: &mut Rng, d: u64, radix: u64) -> char {
+    if radix <= 36 {
+        let c = std::char::from_digit(d as u32, 36).unwrap();
+        if r.bool() {
+            c.to_ascii_uppercase()
+        } else {
+            c
+        }
+    } else {
+        let c = B64[d as usize] as char;
+        match (c, r.below(3)) {
+            ('+', 0) => '-',
+            ('/', 0) => ',',
+            ('/', 1) => '_',
+            _ => c,
+        }
+    }
+}
+
+fn text_of(r: &mut Rng, v: &BigUint, radix: u64, decorate: bool) -> String {
+    let mut s = String::new();
+    let digits = if v.is_zero() { vec![0u8] } else { v.to_radix_be(radix as u32) };
+    if decorate {
+        for _ in 0..r.below(3) {
+            s.push(digit_char(r, 0, radix));
+        }
+    }
+    for d in digits {
+        s.push(digit_char(r, u64::from(d), radix));
+        if decorate && radix <= 36 && r.chance(1, 6) {
+            s.push('_');
+        }
+    }
+    s
+}
+
+fn insert_at(s: &str, r: &mut Rng, c: char) -> String {
+    let idxs: Vec<usize> = s.char_indices().map(|(i, _)| i).chain([s.len()]).collect();
+    let i = *r.pick(&idxs);
+    let mut o = String::from(&s[..i]);
+    o.push(c);
+    o.push_str(&s[i..]);
+    o
+}
+
+const BASES: &[u64] = &[2, 3, 7, 8, 10, 16, 36, 64, 255, 256, 10_000_000_000_000_000_000, 1 << 32, 1 << 63, u64::MAX, (1 << 60)];
+
+fn workload(m: &mut Mon, bits: usize) {
+    let mut r = m.stream("c09.values", bits);
+    let mut values = gen::boundary(bits);
+    // values just above / below powers of each chunk base
+    for cb in [10_000_000_000_000_000_000u128, 1 << 63, 1 << 60] {
+        let mut p = BigUint::from(1u8);
+        for _ in 0..6 {
+            p *= cb;
+            for d in [0i32, -1, 1] {
+                let v = if d < 0 { &p - 1u8 } else { &p + d as u32 };
+                if big::fits(&v, bits) {
+                    values.push(big::limbs(&v, gen::nlimbs(bits)));
+                }
+            }
+            // a chunk of all zeros in the middle: p * k
+            let v = &p * 7u8;
+            if big::fits(&v, bits) {
+                values.push(big::limbs(&v, gen::nlimbs(bits)));
+            }
+        }
+    }
+    for _ in 0..m.iters(60) {
+        values.push(gen::hostile(&mut r, bits));
+    }
+    values.sort();
+    values.dedup();
+    // ---- digit iterators
+    for v in &values {
+        if !m.keep() {
+            continue;
+        }
+        for &b in BASES {
+            m.case("to_base", bits, vec![au(v), Arg::N(b.into())]);
+        }
+        let rb = 2 + r.u64() % (u64::MAX - 2);
+        m.case("to_base", bits, vec![au(v), Arg::N(rb.into())]);
+    }
+    m.case("to_base", bits, vec![au(&gen::max(bits)), Arg::N(0)]);
+    m.case("to_base", bits, vec![au(&gen::max(bits)), Arg::N(1)]);
+    // ---- from_base with faults: overflow by one unit / one digit, bad digit, bad base
+    let lim = big::p2(bits);
+    for &b in BASES {
+        if !m.keep() {
+            continue;
+        }
+        let bb = BigUint::from(b);
+        let digits_of = |v: &BigUint| -> Vec<u64> {
+            let mut le = vec![];
+            let mut t = v.clone();
+            while !t.is_zero() {
+                le.push((&t % &bb).to_u64().unwrap());
+                t /= &bb;
+            }
+            le.reverse();
+            le
+        };
+        let max_d = digits_of(&(&lim - 1u8));
+        let lim_d = digits_of(&lim);
+        let lim1_d = digits_of(&(&lim + 1u8));
+        m.case("from_base", bits, vec![au(&max_d), Arg::N(b.into())]);
+        m.case("from_base", bits, vec![au(&lim_d), Arg::N(b.into())]); // overflow by exactly one unit
+        m.case("from_base", bits, vec![au(&lim1_d), Arg::N(b.into())]);
+        let mut one_more = max_d.clone();
+        one_more.push(0); // overflow by one digit
+        m.case("from_base", bits, vec![au(&one_more), Arg::N(b.into())]);
+        let mut lead0 = vec![0, 0, 0];
+        lead0.extend_from_slice(&max_d); // leading zero digits are fine
+        m.case("from_base", bits, vec![au(&lead0), Arg::N(b.into())]);
+        if !max_d.is_empty() && b < u64::MAX {
+            let mut bad = max_d.clone();
+            let i = r.below(bad.len());
+            bad[i] = b; // digit equal to the base
+            m.case("from_base", bits, vec![au(&bad), Arg::N(b.into())]);
+            let mut bad = vec![0; max_d.len()];
+            bad[i] = u64::MAX;
+            m.case("from_base", bits, vec![au(&bad), Arg::N(b.into())]);
+        }
+        m.case("from_base", bits, vec![au(&[]), Arg::N(b.into())]);
+        for _ in 0..m.iters(6) {
+            let n = r.range(0, max_d.len() + 2);
+            let ds: Vec<u64> = (0..n).map(|_| if r.chance(1, 12) { b.saturating_add(r.below(2) as u64) } else { r.u64() % b }).collect();
+            m.case("from_base", bits, vec![au(&ds), Arg::N(b.into())]);
+        }
+    }
+    m.case("from_base", bits, vec![au(&[0, 0]), Arg::N(0)]);
+    m.case("from_base", bits, vec![au(&[0]), Arg::N(1)]);
+    m.case("from_base", bits, vec![au(&[]), Arg::N(1)]);
+    // ---- formatting grid: six traits x 18 flag combinations x widths
+    for v in &values {
+        if !m.keep() {
+            continue;
+        }
+        for w in [1usize, 5, 20, 70, 140] {
+            if w > 5 && r.chance(2, 3) {
+                continue;
+            }
+            m.case("fmt", bits, vec![au(v), Arg::N(w as u128)]);
+        }
+        if m.time_up() {
+            break;
+        }
+    }
+    // ---- parsing: every radix 0..=65
+    let mut r = m.stream("c09.parse", bits);
+    for radix in 0..=65u64 {
+        if !m.keep() {
+            continue;
+        }
+        let rr = radix.clamp(2, 64);
+        for k in 0..m.iters(10) {
+            let v = match k % 5 {
+                0 => &lim - 1u8,
+                1 => lim.clone(),        // overflow by one unit
+                2 => &lim * rr,          // overflow by one digit
+                _ => big::big(&gen::hostile(&mut r, bits)),
+            };
+            let t = text_of(&mut r, &v, rr, k % 2 == 1);
+            m.case("parse", bits, vec![Arg::S(t.clone()), Arg::N(radix.into())]);
+            if k % 3 == 0 {
+                // single invalid character
+                let bad = if rr <= 36 { *r.pick(&['+', '-', '/', ',', '=', ' ', '.', 'é', '\u{200b}', '\n']) } else { *r.pick(&[' ', '.', '*', 'é', '!', '\t']) };
+                m.case("parse", bits, vec![Arg::S(insert_at(&t, &mut r, bad)), Arg::N(radix.into())]);
+                // digit equal to the radix
+                if rr < 36 {
+                    let c = std::char::from_digit(rr as u32, 36).unwrap();
+                    m.case("parse", bits, vec![Arg::S(insert_at(&t, &mut r, c)), Arg::N(radix.into())]);
+                } else if rr > 36 && rr < 64 {
+                    let c = B64[rr as usize] as char;
+                    m.case("parse", bits, vec![Arg::S(insert_at(&t, &mut r, c)), Arg::N(radix.into())]);
+                }
+            }
+        }
+        // every character class of the alphabet as a one-character string
+        for c in ('0'..='9').chain('a'..='z').chain('A'..='Z').chain(['_', '+', '-', '/', ',', '=', ' ', '\r', '\n', 'é']) {
+            m.case("parse", bits, vec![Arg::S(c.to_string()), Arg::N(radix.into())]);
+        }
+        m.case("parse", bits, vec![Arg::S(String::new()), Arg::N(radix.into())]);
+    }
+    for radix in [66u64, 100, 1 << 32, u64::MAX] {
+        m.case("parse", bits, vec![Arg::S("10".into()), Arg::N(radix.into())]);
+    }
+    // ---- FromStr with prefixes
+    for k in 0..m.iters(60) {
+        if !m.keep() {
+            continue;
+        }
+        let v = match k % 5 {
+            0 => &lim - 1u8,
+            1 => lim.clone(),
+            _ => big::big(&gen::hostile(&mut r, bits)),
+        };
+        for (pfx, rr) in [("", 10u64), ("0x", 16), ("0X", 16), ("0o", 8), ("0O", 8), ("0b", 2), ("0B", 2)] {
+            let t = format!("{pfx}{}", text_of(&mut r, &v, rr, k % 2 == 0));
+            m.case("from_str", bits, vec![Arg::S(t.clone())]);
+            if k % 4 == 0 {
+                let bad = *r.pick(&['g', 'z', ' ', '-', '+', '.', 'é', 'x', '9', '8', '2']);
+                m.case("from_str", bits, vec![Arg::S(insert_at(&t, &mut r, bad))]);
+            }
+        }
+    }
+    for t in ["", "0", "0x", "0b", "0o", "x", "0x_", "_", "__", "0_", "00x1", "0xg", "0b2", "0o8", "1e3", " 1", "1 ", "+1", "-1", "é", "0é", "１２"] {
+        m.case("from_str", bits, vec![Arg::S(t.to_string())]);
+    }
+}
+
+fn main() {
+    let mut m = Mon::new("C09", dispatch);
+    if !m.replay_if_requested() {
+        for &bits in WIDTHS {
+            if m.width_enabled(bits) {
+                workload(&mut m, bits);
+            }
+        }
+    }
+    m.finish();
+}
